@@ -63,8 +63,12 @@ CHECKS["C03"] = dict(
          "model's reply is well-framed (simple strings and error lines are LF-free constants; payload bytes only inside bulk strings), so a conforming "
          "client decodes exactly that reply whatever bytes are stored (hypothesis: an error text adopted from the observed reply in checker mode is "
          "itself a decoded error line; obs_hypothesis_needed shows it cannot be dropped). Parallel sessions (4-10 connections owning disjoint keys, "
-         "large array replies written at the same moment) check that each client receives exactly its own replies.",
-    note="Trusted: Lean kernel, harness (net.Pipe, sentinel PING framing), driver. The theorem is about the model; the Go encoder is tied by the "
+         "large array replies written at the same moment) check that each client receives exactly its own replies. Fact F6, regenerated from the Go "
+         "source on every run (harness/sites.go -> Generated/ReplySites.lean -> Props/C03Sites.lean): ReplySites.no_client_bytes_in_line_replies - no call of "
+         "MakeStringData / MakeErrorData / MakeWrongNumberArgs / MakePlainData receives an expression derived from the command words (per-function taint through "
+         "indexing, conversions, strings.*, fmt.Sprintf, concatenation, locals); ReplySites.inventory - the calls with a non-constant payload are exactly a "
+         "reviewed list; a broken obligation aims CR/LF-carrying sessions at the executors concerned and is reported with the framing break found, or as no-failing-input-found.",
+    note="Trusted: Lean kernel, harness (net.Pipe, sentinel PING framing), driver, the F6 extractor (helpers receiving a string parameter are not followed). The theorem is about the model; the Go encoder is tied by the "
          "byte-level comparison. Scheduler and socket behaviour under concurrent connections are explored, not proved.",
 )
 CHECKS["C19"] = dict(
@@ -292,7 +296,8 @@ CHECKS["C04"] = dict(
          "mismatches; each program then checks that old and new keys still answer. Fact F3, regenerated on every run: every index, slice, "
          "non-comma-ok type assertion, make with a computed size and integer division of memdb/server/resp/util/raftexample is extracted with the "
          "minimum length the guards on every path to it guarantee; Sites.const_sites_safe / rel_sites_safe / executor_entry_safe re-prove needed <= guaranteed "
-         "for every guarded site (a cmd[3] behind len(cmd) < 3 breaks the build), Sites.dynamic_inventory pins the unguarded sites to a hand-reviewed list; "
+         "for every guarded site (a cmd[3] behind len(cmd) < 3 breaks the build), Sites.dynamic_inventory pins the unguarded sites to a hand-reviewed list, "
+         "Sites.nil_unguarded_inventory does the same for non-comma-ok assertions and dereferences of nil-capable lookup results (LPop, Index, GetByName ...) that no ok / != nil test dominates; "
          "a broken obligation aims the enumeration at the executors concerned and is reported with the crashing vector, or as no-failing-input-found.",
     note="Partial: panic-freedom of the Go executors is a theorem only as far as fact F3 reaches - Lean-checked arithmetic over guards extracted by harness/sites.go (trusted, not verified) "
          "for the guarded index/slice/division sites, a reviewed inventory + the enumeration for the others; nil dereferences and explicit panics are not inventoried; process liveness over TCP is runtime. "
